@@ -8,6 +8,7 @@ CONSTANTS
   Extra <- NoExtra
   GFirst = TRUE
   SelDet = TRUE
+  RecSteps = FALSE
   LogOn = TRUE
   POR = TRUE
 CONSTRAINT DumpAll
